@@ -43,6 +43,11 @@ func typeText(e ast.Expr) string {
 		return "..." + typeText(v.Elt)
 	case *ast.FuncType:
 		return "func"
+	case *ast.StructType:
+		if v.Fields == nil || len(v.Fields.List) == 0 {
+			return "struct{}"
+		}
+		return "struct{...}"
 	}
 	return fmt.Sprintf("%T", e)
 }
@@ -108,9 +113,22 @@ func mgExpr(e ast.Expr) string {
 		return "(EUn " + mgCoqString(v.Op.String()) + " " + mgExpr(v.X) + ")"
 	case *ast.StarExpr:
 		return "(EUn " + mgCoqString("*") + " " + mgExpr(v.X) + ")"
-	case *ast.CompositeLit: // only the empty literal of a slice / map type: []T{}
+	case *ast.CompositeLit: // the empty literal of a slice / map type: []T{} ; a slice literal of plain elements: []T{a, b}
 		if len(v.Elts) == 0 && v.Type != nil {
 			return "(EId " + mgCoqString(typeText(v.Type)+"{}") + ")"
+		}
+		if at, ok := v.Type.(*ast.ArrayType); ok && at.Len == nil {
+			elts := make([]string, len(v.Elts))
+			plain := true
+			for i, x := range v.Elts {
+				if _, kv := x.(*ast.KeyValueExpr); kv {
+					plain = false
+				}
+				elts[i] = mgExpr(x)
+			}
+			if plain {
+				return "(ECall (EId " + mgCoqString(typeText(v.Type)+"{...}") + ") " + mgList(elts) + ")"
+			}
 		}
 	case *ast.FuncLit: // only the function literal whose body is one "return e": func(a, b T) R { return e }
 		if v.Body != nil && len(v.Body.List) == 1 {
